@@ -101,6 +101,7 @@ Proof.
 Qed.
 
 Section GoalItems.
+  Variable gt : bool.                         (* with / without the repair proposed for D19d: Model.Problem.cfg_gt *)
   Variable num : string -> option float.
   Variable dom : mdomain.
   Hypothesis Hdom : dom_ok dom.
@@ -108,6 +109,19 @@ Section GoalItems.
 
   Local Notation v := (vocab_of dom).
   Local Notation funcs := (d_funcs dom).
+  Local Notation cfgx := (cfg_gt gt).
+
+  (* every argument of a fluent that IS a declared object / constant conforms to the parameter's type *)
+  Fixpoint tyd (objs : pydict string) (n : nexp) : bool :=
+    match n with
+    | Pddl.NNum _ => true
+    | Pddl.NFl f args =>
+        match lookup f funcs with
+        | Some sg => if Nat.eqb (List.length args) (List.length sg) then goal_types_ok dom objs args (dvalues sg) else true
+        | None => true
+        end
+    | Pddl.NBin _ a b => tyd objs a && tyd objs b
+    end.
 
   Lemma alookup_funcs_keys h :
     alookup h (funcs_keys dom) = match dget funcs h with Some sg => Some (dkeys sg) | None => None end.
@@ -117,24 +131,25 @@ Section GoalItems.
   Qed.
 
   (* goal_arity_ok on a list that is not flat: all operands *)
-  Lemma arity_go_false l :
+  Lemma arity_go_false objs l :
     (fix go (skip : bool) (l0 : list sexp) {struct l0} : bool :=
        match l0 with
        | [] => true
-       | x :: r => (if skip then true else goal_arity_ok dom x) && go false r
-       end) false l = forallb (goal_arity_ok dom) l.
+       | x :: r => (if skip then true else goal_arity_ok cfgx dom objs x) && go false r
+       end) false l = forallb (goal_arity_ok cfgx dom objs) l.
   Proof. induction l as [|x r IH]; [reflexivity|]. rewrite IH. reflexivity. Qed.
 
-  Lemma goal_arity_nonflat l : NumExpr.all_atoms l = None ->
-    goal_arity_ok dom (SList l) = forallb (goal_arity_ok dom) (tl l).
+  Lemma goal_arity_nonflat objs l : NumExpr.all_atoms l = None ->
+    goal_arity_ok cfgx dom objs (SList l) = forallb (goal_arity_ok cfgx dom objs) (tl l).
   Proof.
     intros H. cbn [goal_arity_ok]. rewrite H. destruct l as [|x r]; [reflexivity|].
     cbn [tl]. rewrite <- arity_go_false. reflexivity.
   Qed.
 
   (* a function application (flat list) *)
-  Lemma flat_fluent h names : str_in h keywords = false ->
-    goal_arity_ok dom (SList (Atom h :: map Atom names)) = arity_okb funcs (Pddl.NFl h names) /\
+  Lemma flat_fluent objs h names : str_in h keywords = false ->
+    goal_arity_ok cfgx dom objs (SList (Atom h :: map Atom names))
+      = arity_okb funcs (Pddl.NFl h names) && (negb gt || tyd objs (Pddl.NFl h names)) /\
     (arity_okb funcs (Pddl.NFl h names) = true ->
      res_rel (pconstruct true num (funcs_keys dom) (SList (Atom h :: map Atom names)))
              (if declared_all funcs (Pddl.NFl h names) && nexp_nodup (Pddl.NFl h names)
@@ -144,7 +159,10 @@ Section GoalItems.
     assert (Hall : NumExpr.all_atoms (Atom h :: map Atom names) = Some (h :: names)).
     { cbn [NumExpr.all_atoms]. rewrite all_atoms_map. reflexivity. }
     split.
-    - cbn [goal_arity_ok]. rewrite Hall. cbn [arity_okb]. rewrite <- dget_lookup. reflexivity.
+    - cbn [goal_arity_ok]. rewrite Hall. cbn [arity_okb tyd fix_goal_types cfg_gt]. rewrite <- !dget_lookup.
+      unfold signature, pydict, name in *.
+      match goal with |- context [@dget ?V ?d h] => destruct (@dget V d h) as [sg|] end;
+        [destruct (Nat.eqb (List.length names) (List.length sg)); reflexivity | rewrite orb_true_r; reflexivity].
     - cbn [arity_okb declared_all tree_of_nexp nexp_nodup]. rewrite <- !dget_lookup. intros Har.
       cbn [pconstruct]. rewrite Hall. cbn [pconstruct_flat].
       rewrite (not_keyword_not_operator h Hk). rewrite alookup_funcs_keys.
@@ -158,21 +176,22 @@ Section GoalItems.
   Qed.
 
   (* every expression of the grammar *)
-  Lemma construct_read e : forall x, read_nexp num e = Some x ->
-    goal_arity_ok dom e = arity_okb funcs x /\
+  Lemma construct_read objs e : forall x, read_nexp num e = Some x ->
+    goal_arity_ok cfgx dom objs e = arity_okb funcs x && (negb gt || tyd objs x) /\
     (arity_okb funcs x = true ->
      res_rel (pconstruct true num (funcs_keys dom) e)
              (if declared_all funcs x && nexp_nodup x then Some (tree_of_nexp x) else None)).
   Proof.
     induction e as [s|l IH] using sexp_ind'; intros x Hx.
     - cbn [read_nexp] in Hx. destruct (num s) as [xv|] eqn:En; [|discriminate]. injection Hx as <-.
-      split; [reflexivity|]. intros _. cbn [pconstruct declared_all nexp_nodup tree_of_nexp andb]. unfold construct_atom.
+      split; [cbn [goal_arity_ok arity_okb tyd andb]; rewrite orb_true_r; reflexivity|].
+      intros _. cbn [pconstruct declared_all nexp_nodup tree_of_nexp andb]. unfold construct_atom.
       destruct (str_in s LEGAL_NUMERICAL_EXPRESSIONS) eqn:El; [rewrite (Hnum s El) in En; discriminate|].
       rewrite En. reflexivity.
     - destruct l as [|[h|] t]; [discriminate | | discriminate].
       (* the flat case, reached from several shapes of t *)
       assert (Hflat : forall names, str_in h keywords = false -> atom_names t = Some names -> x = Pddl.NFl h names ->
-                goal_arity_ok dom (SList (Atom h :: t)) = arity_okb funcs x /\
+                goal_arity_ok cfgx dom objs (SList (Atom h :: t)) = arity_okb funcs x && (negb gt || tyd objs x) /\
                 (arity_okb funcs x = true ->
                  res_rel (pconstruct true num (funcs_keys dom) (SList (Atom h :: t)))
                          (if declared_all funcs x && nexp_nodup x then Some (tree_of_nexp x) else None))).
@@ -199,7 +218,7 @@ Section GoalItems.
              destruct (num sa) as [va|] eqn:Ena; [|discriminate]. injection Ea as <-.
              destruct (num sb) as [vb|] eqn:Enb; [|discriminate]. injection Eb as <-.
              split.
-             ++ cbn [goal_arity_ok NumExpr.all_atoms arity_okb andb].
+             ++ cbn [goal_arity_ok NumExpr.all_atoms arity_okb tyd andb]. rewrite orb_true_r.
                 destruct Hdom as [_ Hf].
                 destruct (dget funcs (binop_name o)) eqn:Ed; [|reflexivity].
                 assert (Hin : In (binop_name o) (dkeys funcs)).
@@ -208,7 +227,8 @@ Section GoalItems.
              ++ intros _. cbn [pconstruct NumExpr.all_atoms pconstruct_flat]. rewrite Hop.
                 cbn [construct_flat List.length Nat.eqb negb andb]. rewrite Hop, Ena, Enb. reflexivity.
           -- split.
-             ++ rewrite goal_arity_nonflat by exact Hall. cbn [tl forallb arity_okb]. rewrite Haa, Hba, andb_true_r. reflexivity.
+             ++ rewrite goal_arity_nonflat by exact Hall. cbn [tl forallb arity_okb tyd]. rewrite Haa, Hba, andb_true_r.
+                destruct gt, (arity_okb funcs xa), (arity_okb funcs xb), (tyd objs xa), (tyd objs xb); reflexivity.
              ++ cbn [arity_okb declared_all nexp_nodup tree_of_nexp]. intros Har. apply andb_true_iff in Har. destruct Har as [Har1 Har2].
                 cbn [pconstruct]. rewrite Hall. cbn [List.length Nat.eqb negb andb].
                 specialize (Hac Har1). specialize (Hbc Har2).
@@ -236,13 +256,13 @@ Section GoalItems.
         if atom_ok v (v_preds v) (pb_objects pb) (p, args)
         then Some (with_goal pb (pb_goal pb ++ [(p, args)]) (pb_goal_num pb)) else None
     | inr (c, l, r) =>
-        if code_ok funcs l && code_ok funcs r
+        if code_ok funcs l && code_ok funcs r && (negb gt || (tyd (pb_objects pb) l && tyd (pb_objects pb) r))
         then Some (with_goal pb (pb_goal pb) (pb_goal_num pb ++ [goal_tree (c, l, r)])) else None
     end.
 
   Lemma parse_goal_item_spec pb e g :
     read_goal_item num e = Some g ->
-    res_rel (parse_goal_item cfg_fixed num dom pb e) (step_goal pb g).
+    res_rel (parse_goal_item cfgx num dom pb e) (step_goal pb g).
   Proof.
     unfold read_goal_item. destruct e as [s|[|[h|] rest]]; try discriminate.
     unfold parse_goal_item. cbn [head_args bind]. rewrite read_cmpop_goal_ops.
@@ -253,15 +273,24 @@ Section GoalItems.
       destruct (read_nexp num l) as [x|] eqn:El; [|discriminate].
       destruct (read_nexp num r) as [y|] eqn:Er; [|discriminate].
       intros H. injection H as <-.
-      rewrite andb_false_r. cbn [negb fix_goal_arity fix_apps cfg_fixed andb].
-      destruct (construct_read l x El) as [Hla Hlc]. destruct (construct_read r y Er) as [Hra Hrc].
+      rewrite andb_false_r. cbn [negb fix_goal_arity fix_apps cfg_gt andb].
+      destruct (construct_read (pb_objects pb) l x El) as [Hla Hlc]. destruct (construct_read (pb_objects pb) r y Er) as [Hra Hrc].
       assert (Hall : NumExpr.all_atoms [Atom h; l; r] = None).
       { destruct l as [sl|]; [destruct r as [sr|]; [discriminate Eat | reflexivity] | reflexivity]. }
       rewrite goal_arity_nonflat by exact Hall. cbn [tl forallb]. rewrite Hla, Hra, andb_true_r.
       cbn [step_goal]. unfold code_ok, shape_ok.
+      assert (HT : negb gt || (tyd (pb_objects pb) x && tyd (pb_objects pb) y)
+                   = (negb gt || tyd (pb_objects pb) x) && (negb gt || tyd (pb_objects pb) y))
+        by (destruct gt, (tyd (pb_objects pb) x), (tyd (pb_objects pb) y); reflexivity).
+      rewrite HT. clear HT.
       destruct (arity_okb funcs x) eqn:Eax; cbn [andb negb]; [|raises EValue].
+      destruct (negb gt || tyd (pb_objects pb) x); cbn [andb negb].
+      2:{ rewrite !andb_false_r. raises EValue. }
       destruct (arity_okb funcs y) eqn:Eay; cbn [andb negb].
       2:{ rewrite !andb_false_r. raises EValue. }
+      destruct (negb gt || tyd (pb_objects pb) y); cbn [andb negb].
+      2:{ rewrite !andb_false_r. raises EValue. }
+      rewrite !andb_true_r.
       cbn [pconstruct]. rewrite Hall. cbn [List.length Nat.eqb negb andb].
       specialize (Hlc eq_refl). specialize (Hrc eq_refl).
       destruct (declared_all funcs x && nexp_nodup x); cbn [andb].
